@@ -70,6 +70,10 @@ func (orderedMap *Map[K, V]) Has(key K) bool {
 }
 
 func (orderedMap *Map[K, V]) Remove(key K) {
+	if _, found := orderedMap.records[key]; !found {
+		return
+	}
+
 	delete(orderedMap.records, key)
 
 	newOrder := make([]K, 0, len(orderedMap.order)-1)
